@@ -743,6 +743,7 @@ func propC12() *Prop {
 			}
 			js = append(js, threadJob(lbJob("C12/pair[health-check tick || Stop]", "VerifC19Stop", 0, 1, 1), int(tierPick(tier, 2, 3))))
 			js = append(js, threadJob(lbJob("C12/pair[Stop || Stop]", "VerifC19Stop", 1, 1, 0), int(tierPick(tier, 2, 3))))
+			js = append(js, threadJob(lbJob("C12/pair[Stop || probe in flight to a hung backend]", "VerifC19Stop", 3, 1, 0), 2))
 			js = append(js, threadJob(lbJob("C12/Stop; late tick; Stop", "VerifC19Stop", 2, 1, 0), 1))
 			js = append(js, threadJob(job("C12/pair[breaker Execute x2 at the open->half-open boundary]", "circuitbreaker", "VerifC07Concurrent", 2), 2))
 			return js
